@@ -15,20 +15,117 @@ import (
 // an anchor is re-bound only when exactly one function (field) that carries no
 // known name has that fingerprint.  Anything else stays unresolved and fails.
 
+// normType renders a type with every named type of the analysed package replaced by one placeholder, so
+// that renaming a type changes no fingerprint.
+func normType(t types.Type) string {
+	s := types.TypeString(t, func(p *types.Package) string {
+		if p != nil && p.Path() == PkgPath {
+			return "\x00"
+		}
+		return p.Path()
+	})
+	if !strings.Contains(s, "\x00") {
+		return s
+	}
+	var b strings.Builder
+	for i := 0; i < len(s); i++ {
+		if s[i] != 0 {
+			b.WriteByte(s[i])
+			continue
+		}
+		b.WriteString("·T")
+		i++ // the dot
+		for i+1 < len(s) && (s[i+1] == '_' || s[i+1] >= '0' && s[i+1] <= '9' || s[i+1] >= 'A' && s[i+1] <= 'Z' || s[i+1] >= 'a' && s[i+1] <= 'z') {
+			i++
+		}
+	}
+	return b.String()
+}
+
 func typeList(t *types.Tuple) string {
 	var s []string
 	for i := 0; i < t.Len(); i++ {
-		s = append(s, types.TypeString(t.At(i).Type(), nil))
+		s = append(s, normType(t.At(i).Type()))
 	}
 	return strings.Join(s, ",")
 }
+
+// TypeShape fingerprints a named struct type without its own name or its field names: field types in
+// order, and the sorted signatures of its methods (value and pointer receivers).
+func (p *Prog) TypeShape(n *types.Named) string {
+	st, ok := n.Underlying().(*types.Struct)
+	if !ok {
+		return "non-struct|" + normType(n.Underlying())
+	}
+	var fs []string
+	for i := 0; i < st.NumFields(); i++ {
+		fs = append(fs, normType(st.Field(i).Type()))
+	}
+	var ms []string
+	for i := 0; i < n.NumMethods(); i++ {
+		m := n.Method(i)
+		sig := m.Type().(*types.Signature)
+		exported := ""
+		if m.Exported() {
+			exported = m.Name() // exported method names are API, they do not change in a clean-up
+		}
+		ms = append(ms, exported+"("+typeList(sig.Params())+")("+typeList(sig.Results())+")")
+	}
+	sort.Strings(ms)
+	return "struct{" + strings.Join(fs, ";") + "}|" + strings.Join(ms, ";")
+}
+
+// AliasRenamedTypes re-binds named struct types ("old name" -> shape) after a pure rename.
+func (p *Prog) AliasRenamedTypes(typeShapes map[string]string) {
+	p.TypeAlias = map[string]*types.Named{}
+	scope := p.Types.Scope()
+	var unknown []*types.Named
+	for _, name := range scope.Names() {
+		tn, ok := scope.Lookup(name).(*types.TypeName)
+		if !ok || tn.IsAlias() {
+			continue
+		}
+		if _, known := typeShapes[name]; known {
+			continue
+		}
+		if n, isN := tn.Type().(*types.Named); isN {
+			unknown = append(unknown, n)
+		}
+	}
+	names := make([]string, 0, len(typeShapes))
+	for n := range typeShapes {
+		names = append(names, n)
+	}
+	sort.Strings(names)
+	missingWithShape := map[string]int{}
+	for _, old := range names {
+		if scope.Lookup(old) == nil {
+			missingWithShape[typeShapes[old]]++
+		}
+	}
+	for _, old := range names {
+		if scope.Lookup(old) != nil || missingWithShape[typeShapes[old]] != 1 {
+			continue
+		}
+		var cands []*types.Named
+		for _, n := range unknown {
+			if p.TypeShape(n) == typeShapes[old] {
+				cands = append(cands, n)
+			}
+		}
+		if len(cands) == 1 {
+			p.TypeAlias[old] = cands[0]
+		}
+	}
+}
+
 
 // FuncShape fingerprints a function without using any identifier of the package's functions or fields.
 func (p *Prog) FuncShape(f *ssa.Function) string {
 	sig := f.Signature
 	recv := ""
 	if sig.Recv() != nil {
-		recv = types.TypeString(sig.Recv().Type(), nil)
+		recv = normType(sig.Recv().Type())
 	}
 	var ext, inv []string
 	nIn, nInstr, nStore, nLoadField := 0, 0, 0, 0
@@ -86,7 +183,7 @@ func (p *Prog) FieldShape(structName string, f *types.Var) string {
 		keys = append(keys, fmt.Sprintf("%08x:%d", hashString(k), n))
 	}
 	sort.Strings(keys)
-	return fmt.Sprintf("%s|%s|a%d v%d|%s", structName, types.TypeString(f.Type(), nil), addr, val, strings.Join(keys, ","))
+	return fmt.Sprintf("%s|%s|a%d v%d|%s", structName, normType(f.Type()), addr, val, strings.Join(keys, ","))
 }
 
 func hashString(s string) uint32 {
@@ -167,12 +264,13 @@ func (p *Prog) AliasRenamedFields(fieldShapes map[string]string) {
 	for _, k := range keys {
 		i := strings.IndexByte(k, '.')
 		sn, fnm := k[:i], k[i+1:]
-		o := p.Types.Scope().Lookup(sn)
-		tn, ok := o.(*types.TypeName)
-		if !ok {
-			continue
+		var under types.Type
+		if tn, ok := p.Types.Scope().Lookup(sn).(*types.TypeName); ok {
+			under = tn.Type().Underlying()
+		} else if al := p.TypeAlias[sn]; al != nil {
+			under = al.Underlying()
 		}
-		st, ok := tn.Type().Underlying().(*types.Struct)
+		st, ok := under.(*types.Struct)
 		if !ok {
 			continue
 		}
@@ -209,4 +307,68 @@ func (p *Prog) OldFieldName(f *types.Var) string {
 		}
 	}
 	return f.Name()
+}
+
+// GlobalShape fingerprints a package-level variable by its type and use count.
+func (p *Prog) GlobalShape(g *ssa.Global) string {
+	uses := 0
+	fns := append([]*ssa.Function{}, p.FuncList...)
+	if init := p.SPkg.Func("init"); init != nil {
+		fns = append(fns, init)
+	}
+	for _, fn := range fns {
+		for _, b := range fn.Blocks {
+			for _, in := range b.Instrs {
+				for _, op := range in.Operands(nil) {
+					if *op == ssa.Value(g) {
+						uses++
+					}
+				}
+			}
+		}
+	}
+	return fmt.Sprintf("%s|u%d", normType(g.Type()), uses)
+}
+
+// AliasRenamedGlobals re-binds package-level variables after a pure rename.
+func (p *Prog) AliasRenamedGlobals(shapes map[string]string) {
+	p.GlobalAlias = map[string]*ssa.Global{}
+	var unknown []*ssa.Global
+	names := make([]string, 0, len(p.SPkg.Members))
+	for n := range p.SPkg.Members {
+		names = append(names, n)
+	}
+	sort.Strings(names)
+	for _, n := range names {
+		if g, ok := p.SPkg.Members[n].(*ssa.Global); ok {
+			if _, known := shapes[n]; !known && !strings.HasPrefix(n, "init$") {
+				unknown = append(unknown, g)
+			}
+		}
+	}
+	olds := make([]string, 0, len(shapes))
+	for n := range shapes {
+		olds = append(olds, n)
+	}
+	sort.Strings(olds)
+	missing := map[string]int{}
+	for _, o := range olds {
+		if _, ok := p.SPkg.Members[o].(*ssa.Global); !ok {
+			missing[shapes[o]]++
+		}
+	}
+	for _, o := range olds {
+		if _, ok := p.SPkg.Members[o].(*ssa.Global); ok || missing[shapes[o]] != 1 {
+			continue
+		}
+		var cands []*ssa.Global
+		for _, g := range unknown {
+			if p.GlobalShape(g) == shapes[o] {
+				cands = append(cands, g)
+			}
+		}
+		if len(cands) == 1 {
+			p.GlobalAlias[o] = cands[0]
+		}
+	}
 }
